@@ -2,7 +2,7 @@ SPECIFICATION Spec
 CONSTANTS
   Versions <- VersionsAll
   Family = "ops"
-  ShapeIds <- ShapesC03
+  ShapeIds <- ShapesOpsQuick
   VariantIds <- Variants1
   MaxOps = 3
   Alphabet <- AlphabetQuick
